@@ -147,6 +147,8 @@ PROPS = {
             {"pkg": "interpreter", "name": "VH_C07_Step", "quick": {"params": {"D": 3, "K": 2, "A": 1, "C": 0, "TX": 0, "U": 6}}, "thorough": {"params": {"D": 6, "K": 3, "A": 1, "C": 0, "TX": 0, "U": 8}}},
             {"pkg": "interpreter", "name": "VH_C07_Step", "quick": {"params": {"D": 2, "K": 1, "BIGTOP": 9, "OPLO": 121, "OPHI": 128, "U": 4}}, "thorough": {"params": {"D": 3, "K": 1, "BIGTOP": 9, "OPLO": 121, "OPHI": 128, "U": 4}}},
             {"pkg": "interpreter", "name": "VH_C07_Step", "quick": {"params": {"D": 2, "K": 2, "BIGTOP": 9, "OPLO": 152, "OPHI": 153, "U": 4}}, "thorough": {"params": {"D": 3, "K": 3, "BIGTOP": 10, "OPLO": 152, "OPHI": 153, "U": 4}}},
+            # the multisig opcodes with a key count of up to five bytes: allocations must be bounded by the stack, not by the count
+            {"pkg": "interpreter", "name": "VH_C07_Step", "quick": {"params": {"D": 2, "K": 1, "BIGTOP": 5, "OPLO": 174, "OPHI": 175, "U": 4, "CAP": 65536, "SIGOPS": 1, "TX": 1, "X": 2}}, "thorough": {"params": {"X": 3, "D": 3, "K": 1, "BIGTOP": 9, "OPLO": 174, "OPHI": 175, "U": 4, "CAP": 65536, "SIGOPS": 1, "TX": 1}}},
             {"pkg": "interpreter", "name": "VH_C07_Step", "quick": {"params": {"D": 1, "K": 1, "UNLOCK": 1, "U": 4}}, "thorough": {"params": {"D": 2, "K": 1, "UNLOCK": 1, "U": 4}}},
             {"pkg": "interpreter", "name": "VH_C07_Execute"},
             {"pkg": "interpreter", "name": "VH_C07_ExecuteScripts", "quick": {"params": {"L": 1, "LU": 0}}, "thorough": {"params": {"L": 2, "LU": 0}}},
